@@ -13,6 +13,7 @@ import zlib
 
 from ..gen import tlvals as V
 from ..translate import tl_table as TT
+from ..translate import arith2
 
 SPEC = dict(
     manifest=dict(
@@ -32,16 +33,24 @@ SPEC = dict(
              "that returns keeps its result under any larger budget. The framing lemma holds "
              "for every string length; BlockIdExt byte/dict conversions are lossless and equal ids hash equally. The hand-written "
              "model is tied to the code by differential testing on every covered constructor, including contents built from nested "
-             "objects, lists, foreign tails and strings with a registered prefix.",
+             "objects, lists, foreign tails and strings with a registered prefix. The "
+             "framing arithmetic of bytes/string fields and the vector-length guard are additionally re-translated from tl/generator.py on every "
+             "run (Generated/TlFraming.lean): the `<= 253` test, the 1-byte and FE+3-byte little-endian headers, the zero padding to a multiple "
+             "of 4 on serialising (c14_src_frame_tests), and on parsing the FE test, the declared length, the header size and the skip over content "
+             "and padding (c14_src_read_tests) are proved for ALL lengths / inputs / offsets, the hand model's frame / readFrame are proved to be "
+             "exactly their composition (c14_src_model_frame, c14_src_model_read), and the guard `length > len(data) - i` over Python ints is proved "
+             "to be the model's test on the remaining input (c14_src_vector_guard).",
         level_note='Trusted: Lean kernel (propext, Classical.choice, Quot.sound), Spec/Tl.lean as the TL format, the table translator '
                    '(harness/translate/tl_table.py), the hand model Model/Tl.lean (tied by sampled correspondence, not by proof), Python '
                    'str.encode/decode = strict UTF-8, bytes.fromhex/hex inverse, tuple hash. Fuel = recursion depth: theorems hold for every '
                    'sufficiently large depth budget; normalize carries the same budget (its re-parses are the model parser on the content) and '
                    'is shown to be budget-independent from tlFuel on for tables without bare cycles; Python\'s own recursion limit is not '
                    'modelled. The vector rule of the spec asks for count <= encoded length; shown to follow from the element types for every bundled vector field.',
-        technique='Lean 4 proof (hand model generic in a schema table regenerated from source) + differential correspondence with the library',
+        technique='Lean 4 proof (hand model generic in a schema table regenerated from source) + differential correspondence with the library '
+                  '+ source-regenerated framing arithmetic',
     ),
-    translators=[('tl schemas->Generated/TlTable.lean', TT.regenerate)],
+    translators=[('tl schemas->Generated/TlTable.lean', TT.regenerate),
+                 ('tl/generator.py bytes framing + vector guard->Generated/TlFraming.lean', arith2.regenerator('TlFraming'))],
     design_ref='DESIGN.md §6 C14',
     rule='for every covered constructor >= 3 type-directed random canonical values (boundary-biased ints, strings/bytes at lengths '
          '{0..4,252..257,65535 (thorough 2^24-1)} plus a sweep of every length 0..300, nested/polymorphic objects to depth 3, vectors of '
@@ -53,6 +62,7 @@ SPEC = dict(
          'non-trivial = the constructor has at least one field',
     trusted_base=['harness/translate/tl_table.py (table generator, replays the type tests of serialize_field/deserialize)',
                   'Spec/Tl.lean is the TL binary format', 'Model/Tl.lean mirrors generator.py/block.py by hand',
+                  'harness/translate/pyarith.py + arith.py/arith2.py and lean/TonVerif/PyBytes.lean + PyBytes2.lean (Python statements / bytes operations -> Lean) for the c14_src_* theorems',
                   'harness/gen/tlvals.py: generators, independent encoder, token syntax'],
     assumptions=['correspondence is sampled differential testing', 'str.encode/decode are strict UTF-8 and inverse on valid strings',
                  'bytes.fromhex(x.hex()) == x', "Python's hash of a tuple is a function of the tuple's value"],
@@ -533,10 +543,23 @@ def string_sweep(ctx, W, B):
             check_value(ctx, W, B, c, v, f'string-sweep len={n}', model=(n <= 300 or n == 65535))
 
 
+def src_search(ctx, W, B):
+    """Search mode only: logs the points where the regenerated framing arithmetic (Generated/TlFraming.lean) differs from the model's,
+    then runs the string sweep (every length 0..300 and the 2^16 boundary, bytes / string / vectors of them: independent encoder and
+    round trip on the library) before anything else.  True = a concrete failing input was found."""
+    arith2.search_points(ctx, ['TlFraming'])
+    n0 = len(ctx.failures)
+    string_sweep(ctx, W, B)
+    B.flush()
+    return len(ctx.failures) > n0
+
+
 def run(ctx):
     W = world()
     B = Batch(ctx)
     rng = ctx.rng
+    if ctx.search and src_search(ctx, W, B):
+        return
     for d in W.meta.get('disagreements', []):
         # the library's registry and the .tl text disagree about a constructor: the oracle below exercises it with values typed
         # by the TEXT; if that finds no failing value the obligation (table = grammar) is still broken
